@@ -50,6 +50,10 @@ Script ==
     [] ScriptId = 4 -> \* edits and a commit while a run is parked before it reads the repository; contenders meanwhile
          FullCpUpdate(1) \o SubSeq(FullRun(1), 1, 5) \o << S("EnvEdit", 0, "af"), S("Start", 2, "cp_update"), S("TryLock", 2, ""),
               S("EnvEdit", 0, "cf"), S("EnvCommitAll", 0, ""), S("RunReadRepo", 1, "") >> \o Ana(2) \o SubSeq(FullRun(1), 7, 10) \o Show(2)
+    [] ScriptId = 5 -> \* after a killed run: a run that covers no target (checkpoint just updated), completed; then another such run
+                       \* killed after its result was stored but before the pointer moved; readers; the next run
+         FullRun(1) \o SubSeq(FullRun(1), 1, 4) \o << S("Crash", 1, "") >> \o FullCpUpdate(2) \o FullRun(2) \o Show(1)
+           \o SubSeq(FullRun(1), 1, 8) \o << S("Crash", 1, "") >> \o Show(2) \o FullRun(2) \o Show(1)
     [] OTHER -> << >>
 Scripted == Len(hist) < Len(Script)
 FollowsScript(a, p, x) == Scripted => LET sc == Script[Len(hist) + 1] IN
